@@ -1085,8 +1085,6 @@ private:
                 return;
             }
             rate_identity = hashed_token_identity(token_it->second);
-        } else if (token_it != request.fields.end()) {
-            rate_identity = hashed_token_identity(token_it->second);
         }
 
         std::chrono::seconds ttl = default_ttl;
@@ -1245,6 +1243,7 @@ private:
             control_token = node_.config().control_token;
         }
         const auto token_it = fields.find("TOKEN");
+        std::string rate_identity = remote_identity;
         if (control_token.has_value()) {
             if (token_it == fields.end()) {
                 auto error = make_error("ERR_FETCH_UNAUTHENTICATED",
@@ -1260,6 +1259,7 @@ private:
                 respond_error(std::move(error), "auth_invalid", true, false);
                 return;
             }
+            rate_identity = hashed_token_identity(token_it->second);
         }
 
         const auto manifest_it = fields.find("MANIFEST");
@@ -1325,13 +1325,6 @@ private:
         }
 
         if (stream_to_client) {
-            std::string rate_identity = remote_identity;
-            if (control_token.has_value()) {
-                rate_identity = hashed_token_identity(token_it->second);
-            } else if (token_it != fields.end()) {
-                rate_identity = hashed_token_identity(token_it->second);
-            }
-
             if (!allow_stream_fetch(rate_identity)) {
                 auto error = make_error("ERR_FETCH_RATE_LIMITED",
                                         "Too many FETCH requests",
